@@ -33,7 +33,11 @@ RULE = (
     "merge_typesystem on / off.  A case is non-trivial when its document has >= 2 feature structures besides sofas or >= 2 sofas."
 )
 TRUSTED = [
-    "Coq 8.16.1 kernel and vm_compute; theorems C05_json_* of coq/PropsJson.v (from JsonProofs.v): closed under the global context",
+    "Coq 8.16.1 kernel and vm_compute; theorems of coq/PropsJson.v (from JsonLoadProofs.v / JsonProofs2.v), all closed under the "
+    "global context: C05_json_load_is_denotation (doc_ok_json d, denote_json d = Ok cc => load_json d = Ok (with_initial_view "
+    "cc)), C05_json_presentation_invariant over same_content with the instances C05_json_fs_order / _dict_form / "
+    "_member_order / _document_member_order / _view_order and C05_json_presentations_compose, "
+    "C05_json_load_presentation_invariant",
     "models coq/JsonDoc.v (denote_json = what a document describes; with_initial_view), coq/Json.v (load_json: sofa-first pass, "
     "byte-array pre-fetch, second pass, deferred fix-ups, initial-view rule, %VIEWS pass)",
     "stdlib json as text <-> abstract JSON (harness/jsonabs.py parse / emit; string escaping is json.dumps on single strings)",
